@@ -718,6 +718,7 @@ def run_integrate(stg, c, R, fr, meta):
     P = Snap(fr)
     T, F = P.T, P.F
     plain = np.array(P.data, copy=True)
+    held = []            # results handed out earlier are the caller's: looked at again after all the later integrations
     for spelling in ('t', 0, 'f', 1):
         ax = 0 if spelling in ('t', 0) else 1
         a = 't' if ax == 0 else 'f'
@@ -733,6 +734,8 @@ def run_integrate(stg, c, R, fr, meta):
             with common.quiet():
                 raw = stg.integrate(fr, axis=spelling, mode=mode)
             check_values(R, raw, ref, bound, key, 'reduce', spelling=repr(spelling), T=T, F=F)
+            if isinstance(raw, np.ndarray):
+                held.append((key + ':' + repr(spelling), raw, raw.copy()))
             raw = np.asarray(raw)
             if raw.shape != ref.shape:
                 continue
@@ -772,6 +775,10 @@ def run_integrate(stg, c, R, fr, meta):
                         check_axis(R, obj.ts, P.ts, 4 * common.ulp(max(T * P.dt, 1e-300)), f'{kk}:ts', 'timeseries_ts', T=T, F=F)
                         check_kept(R, P, obj, op, fr, df=False, dt=True)
                     meta.look(R, P, obj, op)
+    for nm_, arr_, cp_ in held:
+        R.count('held_integrations_looked_at_again')
+        R.check(np.array_equal(arr_, cp_, equal_nan=True), 'integrate:earlier-result-changed-by-a-later-integration', which=nm_, held=len(held))
+        R.check(not np.shares_memory(arr_, fr.data), 'integrate:result-is-a-view-of-the-frame', which=nm_)
     # integration reads the frame: every pixel of the parent is as it was
     R.check(np.array_equal(np.asarray(fr.data), P.data), 'integrate:changed-parent-data', changed=int((np.asarray(fr.data) != P.data).sum()))
     # ... also when some samples are blanked (NaN) or saturated (inf): they stay where they are, and the mean / sum of a column
